@@ -47,8 +47,8 @@ prop(
 
 prop(
     "C02",
-    rules=["C02-R1", "C02-R2", "C02-R4", "X-EXT@remover", "X-EXT@creator", "X-EXT@grower", "X-EXT@view", "X-EXT@borrow", "X-EXT@other", "C02-R5"],
-    mir_rules=[S.rule_creator, S.rule_remover, S.rule_extent, S2.rule_grower, SP.rule_iter_loops],
+    rules=["C02-R1", "C02-R2", "C02-R4", "X-EXT@remover", "X-EXT@creator", "X-EXT@grower", "X-EXT@view", "X-EXT@borrow", "X-EXT@other", "C02-R5", "C02-R3", "X-EXT@prim"],
+    mir_rules=[S.rule_creator, S.rule_remover, S.rule_extent, S2.rule_grower, SP.rule_iter_loops, S2.rule_dataptr_primitives],
     floors={"C02-R1": lambda c: 3 * n_storages(c), "C02-R2": lambda c: 4 * n_storages(c), "X-EXT@remover": lambda c: 3 * n_storages(c), "X-EXT@creator": lambda c: n_storages(c), "X-EXT@view": lambda c: 2 * n_storages(c)},
     explanation="Static analysis. Decides: C02-R1 the creator writes the handle and all N components at one index = pre-increment len, component i into column i; "
     "C02-R2 the remover swap_removes all N+1 arrays at the resolved dense index with the pre-decrement len and returns the values moved out of columns 0..N-1 in order; "
@@ -58,8 +58,8 @@ prop(
 
 prop(
     "C03",
-    rules=["C03-R1", "C03-R7", "X-EXT@resolver", "X-EXT@view", "X-EXT@borrow", "C03-R3", "C03-R4", "C03-R5"],
-    mir_rules=[S.rule_entity_resolver, S.rule_direct_resolver, S.rule_extent, E.rule_layout, E.rule_id_bits_inert, E.rule_version_opaque, E.rule_conversions],
+    rules=["C03-R1", "C03-R7", "X-EXT@resolver", "X-EXT@view", "X-EXT@borrow", "C03-R3", "C03-R4", "C03-R5", "C03-R2"],
+    mir_rules=[S.rule_entity_resolver, S.rule_direct_resolver, S.rule_extent, E.rule_layout, E.rule_id_bits_inert, E.rule_version_opaque, E.rule_conversions, X.rule_unchecked_inventory],
     floors={"C03-R1": lambda c: 4 * n_storages(c), "C03-R7": lambda c: 2 * n_storages(c)},
     explanation="Static analysis. Decides: C03-R1/R7 every unchecked read whose index derives from a key is dominated by the exact bounds guard against the extent of the array it indexes "
     "and by the generation / free-bit guard before slot contents are used as an index; X-EXT extents match the arrays.",
@@ -101,8 +101,8 @@ prop(
 
 prop(
     "C04",
-    rules=["C04-R2", "C04-R3", "C04-R4", "C04-R5", "X-WMC", "X-EXT@dropper"],
-    mir_rules=[S.rule_remover, S2.rule_dropper, S2.rule_push_guards, S2.rule_cloner, S2.rule_who_may, S.rule_extent],
+    rules=["C04-R2", "C04-R3", "C04-R4", "C04-R5", "X-WMC", "X-EXT@dropper", "C04-R1", "C04-R7"],
+    mir_rules=[S.rule_remover, S2.rule_dropper, S2.rule_push_guards, S2.rule_cloner, S2.rule_who_may, S.rule_extent, S2.rule_dataptr_primitives, S2.rule_forbidden_calls],
     floors={"C04-R2": lambda c: n_storages(c), "C04-R3": lambda c: 5 * n_storages(c), "C04-R4": lambda c: 5 * n_storages(c), "C04-R5": lambda c: n_storages(c), "X-WMC": lambda c: 6 * n_storages(c)},
     explanation="Static analysis. Decides: X-WMC the ownership primitives (write, swap_remove, drop_to, dealloc, grow) are called only by the functions whose role owns them; "
     "C04-R2 the remover moves exactly one value out of each of the N+1 arrays and pairs it with one len decrement; C04-R3 Drop drops cells [0,len) of each column exactly once before freeing each array once with the tracked capacity, "
@@ -113,8 +113,8 @@ prop(
 
 prop(
     "C06",
-    rules=["C06-R1", "C06-R2", "X-EXT@slices", "C06-R3"],
-    mir_rules=[S2.rule_iters, S.rule_extent, SP.rule_iter_loops],
+    rules=["C06-R1", "C06-R2", "X-EXT@slices", "C06-R3", "X-EXT@prim"],
+    mir_rules=[S2.rule_iters, S.rule_extent, SP.rule_iter_loops, S2.rule_dataptr_primitives],
     floors={"C06-R1": lambda c: 6 * n_storages(c), "C06-R2": lambda c: 12 * n_storages(c)},
     explanation="Static analysis. Decides: C06-R1 both raw-pointer iterators start at the column bases with remaining = len, pointer field i over column i; C06-R2 next() yields None iff remaining==0, otherwise the "
     "pre-advance pointers in field order, advances every pointer by exactly one element once and decrements remaining once; X-EXT every slice accessor cuts at len.",
@@ -134,8 +134,8 @@ prop(
 
 prop(
     "C11",
-    rules=["C11-R1", "C11-R2"],
-    mir_rules=[S2.rule_cells, S2.rule_cloner],
+    rules=["C11-R1", "C11-R2", "C11-R3", "C11-R4"],
+    mir_rules=[S2.rule_cells, S2.rule_cloner, SP.rule_borrow_guards],
     floors={"C11-R1": lambda c: 20 * n_storages(c), "C11-R2": lambda c: 20 * n_storages(c)},
     explanation="Static analysis (effect summaries of RefCell acquisitions, all N). Decides: C11-R1 columns are reached only via RefCell::borrow/borrow_mut from shared receivers and get_mut from exclusive ones, no as_ptr/try_borrow_unguarded/leak/forget; "
     "C11-R2 borrow_slice_I/borrow_component_I acquire exactly (dI, shared), the _mut variants exactly (dI, exclusive), lookups/handles/counters acquire nothing, clone acquires every column shared before its first allocation.",
